@@ -1242,6 +1242,9 @@ func (vc *VC) hintsAtCall(prefix, key string, fn *ssa.Function, st *State) {
 		henv := vc.newEnv(st, vc.entrySt)
 		if vc.lastResult != nil {
 			henv.vars["lastresult"] = *vc.lastResult
+			for i, t := range vc.lastResult.Tup {
+				henv.vars[fmt.Sprintf("lastresult%d", i)] = t
+			}
 		}
 		vc.applyHints(-1, h.At, henv)
 	}
